@@ -666,6 +666,13 @@ func checkC20(c *Ctx) {
 					}
 				}
 			}
+			if !okShape {
+				// the fresh-copy form, inline or through a helper: append(append(make(..., 0, ...), X[:i]...), X[i+1:]...)
+				if base, _, ok := removalShape(st.Val, 0); ok {
+					ld, isLd := an.Strip(base).(*ssa.UnOp)
+					okShape = isLd && ld.Op == token.MUL && (ld.X == st.Addr || an.Path(ld.X) == an.Path(st.Addr))
+				}
+			}
 			okAfter := an.Search(an.After(st), an.IsReturn, isSuccess) == nil
 			for _, f := range flds {
 				covered[f] = true
@@ -1085,6 +1092,18 @@ func (c *Ctx) sliceOfDirectoryEntries(s ssa.Value, h *ssa.Function, depth int, s
 		}
 	case *ssa.Const:
 		return x.IsNil()
+	case *ssa.MakeSlice:
+		// make([]*gldap.Entry, 0, n): empty, pre-sized
+		if k, isK := an.IntConst(x.Len); isK && k == 0 {
+			return true
+		}
+	case *ssa.Slice:
+		// make with a constant capacity is an array allocation sliced [:0]
+		if al, isAl := x.X.(*ssa.Alloc); isAl && al.Heap && x.Low == nil {
+			if k, isK := an.IntConst(x.High); isK && k == 0 {
+				return true
+			}
+		}
 	}
 	return false
 }
@@ -1145,4 +1164,103 @@ func isIndexLike(v ssa.Value, rooted func(ssa.Value, int) bool) bool {
 		}
 	}
 	return false
+}
+
+// removalShape recognises a value that is the slice base without its element
+// idx, built without writing to base's backing array: either
+// append(append(fresh, base[:idx]...), base[idx+1:]...) with fresh an empty
+// slice made for the purpose, or the call of a module helper whose only
+// return value has that shape over its parameters.
+func removalShape(v ssa.Value, depth int) (base, idx ssa.Value, ok bool) {
+	if depth > 2 {
+		return nil, nil, false
+	}
+	call, isCall := v.(*ssa.Call)
+	if !isCall {
+		return nil, nil, false
+	}
+	appendArgs := func(x ssa.Value) (ssa.Value, *ssa.Slice, bool) {
+		ac, ok := x.(*ssa.Call)
+		if !ok {
+			return nil, nil, false
+		}
+		b, ok := ac.Common().Value.(*ssa.Builtin)
+		if !ok || b.Name() != "append" || len(ac.Common().Args) != 2 {
+			return nil, nil, false
+		}
+		sl, ok := ac.Common().Args[1].(*ssa.Slice)
+		return ac.Common().Args[0], sl, ok
+	}
+	if inner, tail, ok := appendArgs(call); ok {
+		fresh, head, ok2 := appendArgs(inner)
+		if !ok2 {
+			return nil, nil, false
+		}
+		// fresh: make([]T, 0, n) or a nil / empty slice
+		isFresh := false
+		switch x := an.Strip(fresh).(type) {
+		case *ssa.MakeSlice:
+			if k, isK := an.IntConst(x.Len); isK && k == 0 {
+				isFresh = true
+			}
+		case *ssa.Const:
+			isFresh = x.IsNil()
+		case *ssa.Slice:
+			// make([]T, 0, k) with constant k is an array allocation sliced [:0]
+			if al, isAl := x.X.(*ssa.Alloc); isAl && al.Heap && x.Low == nil {
+				if k, isK := an.IntConst(x.High); isK && k == 0 {
+					isFresh = true
+				}
+			}
+		}
+		if !isFresh || head.Low != nil || head.High == nil || tail.High != nil || tail.Low == nil || an.Strip(head.X) != an.Strip(tail.X) {
+			if !isFresh || head.Low != nil || head.High == nil || tail.High != nil || tail.Low == nil || an.Canon(head.X) != an.Canon(tail.X) {
+				return nil, nil, false
+			}
+		}
+		bo, isB := tail.Low.(*ssa.BinOp)
+		if !isB || bo.Op != token.ADD {
+			return nil, nil, false
+		}
+		if k, isK := an.IntConst(bo.Y); !isK || k != 1 || an.Strip(bo.X) != an.Strip(head.High) && an.Canon(bo.X) != an.Canon(head.High) {
+			return nil, nil, false
+		}
+		return head.X, head.High, true
+	}
+	g := an.StaticCallee(call.Common())
+	if g == nil || !an.InModule(g) || len(g.Blocks) == 0 || g.Signature.Results().Len() != 1 {
+		return nil, nil, false
+	}
+	rets := an.Returns(g)
+	if len(rets) != 1 {
+		return nil, nil, false
+	}
+	b, i, ok := removalShape(an.ReturnResults(rets[0])[0], depth+1)
+	if !ok {
+		return nil, nil, false
+	}
+	argOf := func(x ssa.Value) ssa.Value {
+		for pi, p := range g.Params {
+			if an.Strip(x) == ssa.Value(p) && pi < len(call.Common().Args) {
+				return call.Common().Args[pi]
+			}
+		}
+		return nil
+	}
+	ba, ia := argOf(b), argOf(i)
+	if ba == nil || ia == nil {
+		return nil, nil, false
+	}
+	// the helper writes to nothing but its fresh slice
+	pure := true
+	an.Instrs(g, func(in ssa.Instruction) {
+		switch in.(type) {
+		case *ssa.Store, *ssa.MapUpdate, *ssa.Send, *ssa.Go:
+			pure = false
+		}
+	})
+	if !pure {
+		return nil, nil, false
+	}
+	return ba, ia, true
 }
